@@ -112,7 +112,7 @@ func Equal(a, b *T, o Opts) bool {
 			return true
 		}
 		return math.Float64bits(a.F) == math.Float64bits(b.F)
-	case "string", "bytes", "error", "native", "array":
+	case "string", "bytes", "error", "native", "array", "name":
 		return a.S == b.S
 	case "symbol":
 		return a.S == b.S && (o.IgnoreQuote || a.Q == b.Q)
